@@ -1413,6 +1413,133 @@ def unstar_calls(fn, stmts):
 
 
 
+def _pure_method(P, c, name, seen=()):
+    """method `name` of class c (not redefined by a subclass of c in the package) reads state and returns a value: no store to an attribute or
+    subscript, no statement-level call, no call other than pure builtins and other pure methods of self"""
+    if name in seen or len(seen) > 4:
+        return False
+    hit = P.lookup(c, name)
+    if not hit or hit[1] != 'method':
+        return False
+    for ks in P.by_name.values():
+        for k in ks:
+            if k is not hit[0] and hit[0] in k.mro and name in k.methods:
+                return False
+    fn = hit[2]
+    for x in ast.walk(fn):
+        if isinstance(x, (ast.Attribute, ast.Subscript)) and isinstance(x.ctx, (ast.Store, ast.Del)):
+            return False
+        if isinstance(x, (ast.Global, ast.Nonlocal, ast.Yield, ast.YieldFrom, ast.Await, ast.Raise, ast.Try, ast.With, ast.Lambda)):
+            return False
+        if isinstance(x, ast.Expr) and not isinstance(x.value, ast.Constant):
+            return False
+        if isinstance(x, ast.Call):
+            f = x.func
+            if isinstance(f, ast.Name) and f.id in PURE_BUILTINS:
+                continue
+            if isinstance(f, ast.Attribute) and isinstance(f.value, ast.Name) and f.value.id == 'self' and _pure_method(P, c, f.attr, seen + (name,)):
+                continue
+            return False
+    return True
+
+
+def inline_pure_predicate_locals(P, fn, stmts):
+    """`flag = self._pred(a); ...; return x and not flag` (or `if flag:`) where _pred is a pure method (see _pure_method), flag is assigned once
+    and only used as a condition operand later in the same statement list with no store in between: the call is put where the flag is
+    read and the assignment dropped.  A pure call commutes with the other reads, so this is an identity; it lets the builder route the
+    predicate's own returns to the true / false exits instead of seeing an opaque boolean."""
+    import copy
+    c = _owner_class(P, fn)
+    if c is None:
+        return stmts
+    stores = {}
+    for x in ast.walk(fn):
+        if isinstance(x, ast.Name) and isinstance(x.ctx, (ast.Store, ast.Del)):
+            stores[x.id] = stores.get(x.id, 0) + 1
+
+    def simple(e):
+        return isinstance(e, (ast.Name, ast.Constant)) or (isinstance(e, ast.Attribute) and simple(e.value))
+
+    def cond_uses(st, name):
+        """the Name nodes reading `name` in st if every one of them is an operand of a condition / boolean expression, else None"""
+        par = {}
+        for n in ast.walk(st):
+            for ch in ast.iter_child_nodes(n):
+                par[ch] = n
+        uses = [n for n in ast.walk(st) if isinstance(n, ast.Name) and n.id == name and isinstance(n.ctx, ast.Load)]
+        for u in uses:
+            p = par.get(u)
+            while isinstance(p, ast.UnaryOp) and isinstance(p.op, ast.Not) or isinstance(p, ast.BoolOp):
+                u, p = p, par.get(p)
+            if not ((isinstance(p, (ast.If, ast.While, ast.IfExp, ast.Assert)) and p.test is u) or (isinstance(p, ast.Return) and p.value is u)):
+                return None
+        return uses
+
+    def block(sts):
+        out, changed, i = [], False, 0
+        sts = list(sts)
+        while i < len(sts):
+            st = sts[i]
+            done = False
+            if isinstance(st, ast.Assign) and len(st.targets) == 1 and isinstance(st.targets[0], ast.Name) and stores.get(st.targets[0].id) == 1 \
+                    and isinstance(st.value, ast.Call) and isinstance(st.value.func, ast.Attribute) and isinstance(st.value.func.value, ast.Name) \
+                    and st.value.func.value.id == 'self' and not st.value.keywords and all(simple(a) for a in st.value.args) \
+                    and _pure_method(P, c, st.value.func.attr):
+                name = st.targets[0].id
+                rest = sts[i + 1:]
+                # used only in the statements that follow in this list, each use a condition operand, and nothing stored before the last use
+                total = sum(1 for x in ast.walk(fn) if isinstance(x, ast.Name) and x.id == name and isinstance(x.ctx, ast.Load))
+                found, ok, last = 0, True, -1
+                for j, r in enumerate(rest):
+                    us = cond_uses(r, name)
+                    if us is None:
+                        ok = False
+                        break
+                    if us:
+                        found += len(us)
+                        last = j
+                if ok and found == total and found >= 1:
+                    between = rest[:last]
+                    head_ok = all(not any(isinstance(x, (ast.Attribute, ast.Subscript)) and isinstance(x.ctx, (ast.Store, ast.Del)) or
+                                          (isinstance(x, ast.Call) and not (isinstance(x.func, ast.Name) and x.func.id in PURE_BUILTINS))
+                                          for x in ast.walk(b_)) for b_ in between)
+                    # within the statement of the last use the flag must be read before anything is stored: conditions only read
+                    if head_ok:
+                        call = st.value
+
+                        class Put(ast.NodeTransformer):
+                            def visit_Name(self_, x):
+                                if x.id == name and isinstance(x.ctx, ast.Load):
+                                    return ast.copy_location(copy.deepcopy(call), x)
+                                return x
+                        new_rest = [ast.fix_missing_locations(Put().visit(copy.deepcopy(r))) if any(isinstance(x, ast.Name) and x.id == name for x in ast.walk(r)) else r for r in rest]
+                        sts = sts[:i] + new_rest
+                        changed = True
+                        done = True
+            if done:
+                continue
+            if isinstance(st, (ast.If, ast.For, ast.While, ast.With, ast.Try)):
+                new = None
+                for fld in ('body', 'orelse', 'finalbody'):
+                    sub = getattr(st, fld, None)
+                    if sub:
+                        b2, ch = block(sub)
+                        if ch:
+                            new = new or copy.copy(st)
+                            setattr(new, fld, b2)
+                if new is not None:
+                    out.append(new)
+                    changed = True
+                    i += 1
+                    continue
+            out.append(st)
+            i += 1
+        return out, changed
+    res, ch = block(stmts)
+    return res if ch else stmts
+
+
+
 def foreign_prepass(P, fn):
     """only the passes that read logic moved onto other objects back in place (for analyses that have their own treatment of aliases)"""
     cached = fn.__dict__.get('_sa_foreign_prepass')
@@ -1441,7 +1568,7 @@ def prepass(P, fn):
     cached = fn.__dict__.get('_sa_prepass')
     if cached is not None and cached[0] is fn.body and cached[1] is P:
         return cached[2]
-    res = unstar_calls(fn, inline_foreign_setters(P, fn, inline_foreign_tail_calls(P, fn, inline_element_predicates(P, fn, copy_propagate(fn)))))
+    res = inline_pure_predicate_locals(P, fn, unstar_calls(fn, inline_foreign_setters(P, fn, inline_foreign_tail_calls(P, fn, inline_element_predicates(P, fn, copy_propagate(fn))))))
     fn.__dict__['_sa_prepass'] = (fn.body, P, res)
     return res
 
